@@ -52,6 +52,41 @@ static std::string idformat(const std::string& ty, const std::vector<ull>& v) {
   throw std::runtime_error("unknown id type");
 }
 
+// idself <Type> default|unset|set v...: build the ID object the long way round (default
+// construction, set(), unset()), then report format(id), the field values get<>() reports
+// and whether parse(format(id)) == id.
+template <typename Id, typename ParseF, typename... Fields>
+static std::string idself_impl(const std::string& mode, const std::vector<ull>& v, ParseF parse, Fields... proto) {
+  Id id;
+  size_t k = 0;
+  auto setall = [&](auto&... f) { int d[] = {0, (id.set(std::decay_t<decltype(f)>(static_cast<typename std::decay_t<decltype(f)>::value_type>(v.at(k++)))), 0)...}; (void)d; };
+  auto unsetall = [&](auto&... f) { int d[] = {0, (id.template unset<std::decay_t<decltype(f)>>(), 0)...}; (void)d; };
+  if (mode == "set") setall(proto...);
+  else if (mode == "unset") { setall(proto...); unsetall(proto...); }
+  std::string s = formatId(id);
+  std::ostringstream o;
+  o << to_hex(s);
+  int d[] = {0, (o << " " << (unsigned long long)(unsigned)id.template get<std::decay_t<decltype(proto)>>().get(), 0)...};
+  (void)d;
+  Id back = parse(s);
+  o << (back == id ? " eq" : " ne");
+  return o.str();
+}
+
+static std::string idself(const std::string& ty, const std::string& mode, const std::vector<ull>& v) {
+  if (ty == "AudioProgrammeId") return idself_impl<AudioProgrammeId>(mode, v, parseAudioProgrammeId, AudioProgrammeIdValue());
+  if (ty == "AudioContentId") return idself_impl<AudioContentId>(mode, v, parseAudioContentId, AudioContentIdValue());
+  if (ty == "AudioObjectId") return idself_impl<AudioObjectId>(mode, v, parseAudioObjectId, AudioObjectIdValue());
+  if (ty == "AudioPackFormatId") return idself_impl<AudioPackFormatId>(mode, v, parseAudioPackFormatId, TypeDescriptor(), AudioPackFormatIdValue());
+  if (ty == "AudioChannelFormatId") return idself_impl<AudioChannelFormatId>(mode, v, parseAudioChannelFormatId, TypeDescriptor(), AudioChannelFormatIdValue());
+  if (ty == "AudioBlockFormatId") return idself_impl<AudioBlockFormatId>(mode, v, parseAudioBlockFormatId, TypeDescriptor(), AudioBlockFormatIdValue(), AudioBlockFormatIdCounter());
+  if (ty == "AudioStreamFormatId") return idself_impl<AudioStreamFormatId>(mode, v, parseAudioStreamFormatId, TypeDescriptor(), AudioStreamFormatIdValue());
+  if (ty == "AudioTrackFormatId") return idself_impl<AudioTrackFormatId>(mode, v, parseAudioTrackFormatId, TypeDescriptor(), AudioTrackFormatIdValue(), AudioTrackFormatIdCounter());
+  if (ty == "AudioTrackUidId") return idself_impl<AudioTrackUidId>(mode, v, parseAudioTrackUidId, AudioTrackUidIdValue());
+  if (ty == "TransportId") return idself_impl<TransportId>(mode, v, parseTransportId, TransportIdValue());
+  throw std::runtime_error("unknown id type");
+}
+
 int run_codec(std::istream& in, std::ostream& out) {
   std::string line;
   while (std::getline(in, line)) {
@@ -65,6 +100,10 @@ int run_codec(std::istream& in, std::ostream& out) {
         std::vector<ull> v;
         for (size_t i = 2; i < t.size(); ++i) v.push_back(std::stoull(t[i]));
         o << "ok " << to_hex(idformat(t.at(1), v));
+      } else if (t[0] == "idself") {
+        std::vector<ull> v;
+        for (size_t i = 3; i < t.size(); ++i) v.push_back(std::stoull(t[i]));
+        o << "ok " << idself(t.at(1), t.at(2), v);
       } else if (t[0] == "timeparse") {
         Time tm = parseTimecode(t.size() > 1 ? from_hex(t[1]) : std::string());
         if (tm.isNanoseconds()) o << "ok ns " << tm.asNanoseconds().count();
